@@ -63,7 +63,8 @@ def cfg(svc, nc, ns, ma, ml, rb, mb, mlr, oq, op, ff, msv, mcl):
 
 def key(c):
     return "{svc}-c{nc}s{ns}-a{ma}l{ml}b{rb}w{mb}r{mlr}-{o1}{o2}{f}-v{msv}k{mcl}".format(
-        o1="Q" if c["oq"] else "q", o2="P" if c["op"] else "p", f="F" if c["ff"] else "f", **c)
+        o1="Q" if c["oq"] else "q", o2="P" if c["op"] else "p", f="F" if c["ff"] else "f", **c) \
+        + (f"-x{c['xb']}" if c.get("xb") else "")
 
 
 EXEC_CONFIGS_QUICK = [
@@ -307,7 +308,10 @@ def prog_hash(steps):
 
 
 def driver_cfg(c):
-    return {k: c[k] for k in ("svc", "nc", "ns", "ma", "ml", "rb", "mb", "mlr", "oq", "op", "ff", "msv", "mcl")}
+    d = {k: c[k] for k in ("svc", "nc", "ns", "ma", "ml", "rb", "mb", "mlr", "oq", "op", "ff", "msv", "mcl")}
+    if c.get("xb"):
+        d["xb"] = c["xb"]      # expired connection buffer of the node configuration (default 128)
+    return d
 
 
 def exec_programs(ctx, c, programs, tag):
@@ -411,6 +415,39 @@ def expired_programs(c):
         p += [S("IsConnectedA", 1, 1, n) for n in reqs] + [S("HasRequests", 0, 1), S("ReceiveRequest", 0, 1)]
         p += [S("DropActive", 1, 1, n) for n in reqs] + [S("ReceiveRequest", 0, 1), S("UpdateServer", 0, 1)]
         progs.append(p)
+    return progs
+
+
+def expired_overflow_programs(c):
+    """More dead servers with undelivered responses than the client's expired-connection buffer has entries (c["xb"],
+    here 1; three servers).  Only server 1 has a response that the client still HOLDS (plus an undelivered one on a
+    lower channel): its connection must survive whatever the order in which the servers disappear; the undelivered
+    responses of the borrow-free connections may be lost (the property layer lets the client let go of such a
+    connection at any time)."""
+    import itertools
+    if c["ns"] < 3 or c["msv"] < 3 or c["ma"] < 2 or c["mb"] < 2:
+        return []
+    progs = []
+    base = [S("CreateServer", 0, 1), S("CreateServer", 0, 2), S("CreateServer", 0, 3), S("CreateClient", 1),
+            S("SendCopy", 1), S("SendCopy", 1)]
+    for s in (1, 2, 3):
+        base += [S("ReceiveRequest", 0, s), S("ReceiveRequest", 0, s)]
+    base += [S("SendCopyResponse", 1, 1, 1), S("SendCopyResponse", 1, 1, 2), S("SendCopyResponse", 1, 2, 1),
+             S("SendCopyResponse", 1, 3, 1), S("ReceiveResponse", 1, 0, 2)]
+    base += [S("DropActive", 1, s, n) for s in (1, 2, 3) for n in (1, 2)]
+    for order in itertools.permutations((1, 2, 3)):
+        for poll_between in (True, False):
+            p = list(base)
+            for s in order:
+                p += [S("DropServer", 0, s)]
+                if poll_between:
+                    p += [S("ReceiveResponse", 1, 0, 2)]
+            p += [S("ReceiveResponse", 1, 0, 2), S("ReceiveResponse", 1, 0, 2), S("IsConnectedP", 1, 0, 2),
+                  S("ReceiveResponse", 1, 0, 1), S("ReceiveResponse", 1, 0, 1), S("ReceiveResponse", 1, 0, 1),
+                  S("DropResponse", 1, 1, 2, 1), S("DropResponse", 1, 1, 1, 1), S("DropResponse", 1, 2, 1, 1),
+                  S("DropResponse", 1, 3, 1, 1), S("ReceiveResponse", 1, 0, 2), S("DropPending", 1, 0, 1),
+                  S("DropPending", 1, 0, 2), S("UpdateClient", 1)]
+            progs.append(p)
     return progs
 
 
